@@ -61,6 +61,18 @@ def _check_pair_on(ea, eb, LO, HI, spanb):
         if msg:
             viols.append(Viol("intersection-result", msg + "  [" + tag + "]"))
 
+    if st != "exc":
+        # an explicitly given demarcator (positional and keyword; the empty string and the default value given explicitly included)
+        for dem, kw in (("@", False), ("", False), ("-", True), ("+", True), (" - ", True)):
+            st2, i2, _ = call(A.intersection, B, demarcator=fresh(dem)) if kw else call(A.intersection, B, fresh(dem))
+            if st2 == "exc":
+                viols.append(Viol("intersection-raised:" + type(i2).__name__, f"{tag} demarcator={dem!r}: {i2!r}"))
+                break
+            msg = ival.compare_entries(ents(i2), ival.intersection(FA, FB, dem), True, f"intersection(demarcator={dem!r})")
+            if msg:
+                viols.append(Viol("intersection-demarcator", msg + "  [" + tag + "]"))
+                break
+
     # difference and intersection partition A's labelled time
     if dgot is not None and igot is not None:
         pieces = sorted(dgot + [(s, e, l) for s, e, l in igot])
